@@ -38,6 +38,8 @@ var c15others = []string{"%v", "%d", "%s", "%%", "%5.1q", "%x"}
 var c15wOperands = []*D{
 	dS("Err", "e‹1›\nx"), dS("PErr", "pe"), {K: "NilPErr"}, dS("StdErr", "std"), dS("WrapErr", "wr"), dS("ErrFmter", "ef"), dS("ErrStringer", "es"),
 	{K: "PSafeFmtErr", Sub: []*D{dS("sSafeString", "sf:"), dS("sUnsafeString", "u")}},
+	// an error whose SafeFormat method itself prints with %w through its printer: a bad verb there, whatever the entry point
+	{K: "PSafeFmtErr", Sub: []*D{dS("sSafeString", "sf:"), {K: "sPrintf", S: "in %w;", Sub: []*D{dS("Err", "inner")}}}},
 	{K: "nil"}, dN("int", 42), dS("string", "notanerror"), dS("Stringer", "str"),
 	{K: "errs", Sub: []*D{dS("Err", "in-slice")}},
 	dSub("Safe", dS("Err", "safe-err")), dSub("Unsafe", dS("Err", "unsafe-err")), dSub("Safe", dN("int", 7)), dSub("Unsafe", dSub("Safe", dS("PErr", "nested"))),
@@ -452,6 +454,6 @@ func runC15(c *Ctx) {
 		c15check(w, format, dirs, ops, i)
 		w.Count("random_cases", 1)
 	})
-	c.res.Bound = "all sequences of <= 3 directives over {%w, %v, %d, %%} x 18 operand kinds at each %w position (one varied at a time), 7 flag/width forms and 4 index forms of %w"
+	c.res.Bound = "all sequences of <= 3 directives over {%w, %v, %d, %%} x 19 operand kinds at each %w position (one varied at a time), 7 flag/width forms and 4 index forms of %w"
 	c.res.Assumptions = []string{"go1.23.5 fmt.Errorf/errors.Unwrap are the reference for formats with at most one %w", "a second %w that never reaches an operand (MISSING/BADINDEX) is ambiguous in the statement: only the text is asserted there"}
 }
